@@ -23,7 +23,9 @@ NvOk(r) ==
     LET kw == IF r.kind = "chr" THEN NvKeyword(r.lit) ELSE "none"
         min == Dec(r.min)  max == Dec(r.max)  f == Fin(r.final) IN
     /\ (kw # "none" => r.variant = kw)                       \* keywords exactly in short and long form
-    /\ (kw = "none" => r.variant \in {"value", "err"})       \* otherwise converts as the underlying type
+    /\ (kw = "none" => LET u == Fin(r.under) IN              \* otherwise converts as the underlying type
+                       IF u.k = "ok" THEN r.variant = "value" /\ SameVal(Dec(r.tv), u.v)
+                       ELSE r.variant = "err" /\ f.k = "err" /\ f.code = u.code)
     /\ (r.variant = "err" => f.k = "err")
     /\ (r.variant # "err" => NvResolveOk(r.variant, Dec(r.tv), min, max, r.hasdef, Dec(r.def), f))
     /\ (f.k = "ok" => (~IsNan(f.v) /\ DCmp(min, f.v) <= 0 /\ DCmp(f.v, max) <= 0))   \* never leaves [min, max]
